@@ -49,6 +49,9 @@ type AV struct {
 	// but not yet combined with other variables. Only raw values qualify for the "no limit applied at
 	// all" witness shape.
 	Raw bool
+	// Blowup: the value is (derived from) 1<<n with a stream-controlled, unchecked n that can reach 31
+	// or more: sizes built from it are exponential in a header byte.
+	Blowup bool
 }
 
 const maxPieces = 4
@@ -126,6 +129,9 @@ func (a AV) String() string {
 	if a.Raw {
 		fl = append(fl, "raw")
 	}
+	if a.Blowup {
+		fl = append(fl, "2^stream-byte")
+	}
 	if len(fl) > 0 {
 		s += " (" + strings.Join(fl, ",") + ")"
 	}
@@ -192,12 +198,12 @@ func Join(a, b AV) AV {
 		return a
 	}
 	ps, hulled := normalize(append(append([]Itv{}, a.P...), b.P...))
-	return AV{P: ps, Taint: a.Taint || b.Taint, Exact: a.Exact && b.Exact && !hulled, SanLo: a.SanLo && b.SanLo, SanHi: a.SanHi && b.SanHi, Bits: a.Bits | b.Bits, ZeroDef: a.ZeroDef || b.ZeroDef, Raw: a.Raw && b.Raw}
+	return AV{P: ps, Taint: a.Taint || b.Taint, Exact: a.Exact && b.Exact && !hulled, SanLo: a.SanLo && b.SanLo, SanHi: a.SanHi && b.SanHi, Bits: a.Bits | b.Bits, ZeroDef: a.ZeroDef || b.ZeroDef, Raw: a.Raw && b.Raw, Blowup: a.Blowup || b.Blowup}
 }
 
 // Equal compares ranges and flags.
 func Equal(a, b AV) bool {
-	if len(a.P) != len(b.P) || a.Taint != b.Taint || a.Exact != b.Exact || a.SanLo != b.SanLo || a.SanHi != b.SanHi || a.Bits != b.Bits || a.ZeroDef != b.ZeroDef || a.Raw != b.Raw {
+	if len(a.P) != len(b.P) || a.Taint != b.Taint || a.Exact != b.Exact || a.SanLo != b.SanLo || a.SanHi != b.SanHi || a.Bits != b.Bits || a.ZeroDef != b.ZeroDef || a.Raw != b.Raw || a.Blowup != b.Blowup {
 		return false
 	}
 	for i := range a.P {
@@ -398,7 +404,7 @@ func combine(a, b AV, f func(x, y Itv) Itv) AV {
 		}
 	}
 	n, _ := normalize(ps)
-	return AV{P: n, Taint: a.Taint || b.Taint, Bits: ^uint64(0)}
+	return AV{P: n, Taint: a.Taint || b.Taint, Bits: ^uint64(0), Blowup: a.Blowup || b.Blowup}
 }
 
 func isPoint(a AV) (int64, bool) {
@@ -637,7 +643,10 @@ func Shl(a, n AV) AV {
 	if a.IsBottom() || n.IsBottom() {
 		return Bottom()
 	}
-	r := AV{Taint: a.Taint || n.Taint, Bits: ^uint64(0)}
+	r := AV{Taint: a.Taint || n.Taint, Bits: ^uint64(0), Blowup: a.Blowup}
+	if n.Taint && n.Exact && n.Hi() >= 31 && a.Hi() >= 1 {
+		r.Blowup = true
+	}
 	if n.Lo() < 0 || n.Hi() > 62 {
 		r.P = []Itv{{negInf, posInf}}
 		if a.Lo() >= 0 {
